@@ -203,6 +203,7 @@ Proof.
   - (* LLookup, id 0 *) eapply InvA_frame; eauto.
   - (* LDeliver *) eapply (InvA_same s _ j c0 (set_out c0 (Reply (r_pay r0)) (k_e c0))); eauto; pcs; rewrite Heqp; reflexivity.
   - (* LGiveUp *) eapply InvA_frame; eauto.
+  - (* LIdleClose *) eapply InvA_frame; eauto.
 Qed.
 
 Theorem InvA_reach : forall c s, reach c s -> InvA s.
@@ -320,6 +321,9 @@ Proof.
   - (* LDialTimeout *) destruct HL as [H1 H2]. split; [intros j Hj; discriminate|].
     intros j k' Hk' Hd. destruct (nth_upd_inv _ _ _ _ _ _ _ Heqo Hk') as [[-> ->]|[Hne Hk'']]; [discriminate|].
     pose proof (H2 _ _ Heqo Heqp) as E1. pose proof (H2 _ _ Hk'' Hd) as E2. congruence.
+  - (* LIdleClose: taken and released within the step, possible only while nobody dials *)
+    destruct HL as [H1 H2]. split; [intros j Hj; discriminate|].
+    intros j k' Hk' Hd. pose proof (H2 _ _ Hk' Hd). congruence.
 Qed.
 
 Theorem InvL_reach : forall c s, reach c s -> InvL s.
@@ -609,12 +613,12 @@ Definition returns_statement : Prop :=
 Fixpoint ticks (n : nat) : list label := match n with O => [] | S m => Tick :: ticks m end.
 
 (* (a) two callers, connection establishment stalls: the second caller waits for connLock while the first one dials *)
-Definition stalled_cfg : cfg := mkcfg 40 60 10 100 100000.
+Definition stalled_cfg : cfg := mkcfg 40 60 10 100 100000 60000.
 Definition stalled_trace : list label :=
   [Start 20 false; Start 20 false; LPre 0; LReg 0; LLock 0; LPre 1; LReg 1] ++ ticks 40 ++
   [LDialTimeout 0; LClean 0; LPost 0; LLock 1] ++ ticks 40 ++ [LDialTimeout 1; LClean 1; LPost 1].
 (* (b) the peer accepts and never reads, send queue of length 1: the second caller waits WriteTimeout for room *)
-Definition fullq_cfg : cfg := mkcfg 10 60 10 1 100000.
+Definition fullq_cfg : cfg := mkcfg 10 60 10 1 100000 60000.
 Definition fullq_trace : list label :=
   [Start 10 false; Start 10 false; LPre 0; LReg 0; LLock 0; LDialOk 0; LEnq 0; LPre 1; LReg 1; LLock 1] ++ ticks 10 ++
   [LCtxFire 0; LClean 0; LPost 0] ++ ticks 50 ++ [LEnqTimeout 1; LClean 1; LPost 1].
@@ -665,6 +669,13 @@ Qed.
 
 Theorem peer_packet_inert : forall c s id pay s', step c s (LPeerPkt id pay) = Some s' -> same_calls s s'.
 Proof. intros c s id pay s' H. inv_step H. unfold same_calls; cbn. repeat split; reflexivity. Qed.
+
+(* the sender goroutine's idle check closes the connection and nothing else: it needs connLock free and leaves it free,
+   touches no call, counter, table entry or queue; the next call simply dials again *)
+Theorem idle_close_inert : forall c s s', step c s LIdleClose = Some s' ->
+  lock s = None /\ lock s' = None /\ conn_open s' = false /\ calls s' = calls s /\ queueLen s' = queueLen s /\
+  invokeNum s' = invokeNum s /\ resp s' = resp s /\ sendq s' = sendq s /\ wire s' = wire s /\ now s' = now s.
+Proof. intros c s s' H. inv_step H. cbn. repeat split; auto. Qed.
 
 (* a reply that arrives after its call has returned is dropped at the table lookup *)
 Theorem late_reply_dropped : forall c s r x j k s', reach c s -> nth_error (rcvs s) r = Some x -> r_pc x = RNew ->
@@ -794,21 +805,21 @@ Qed.
 
 (* ---- non-vacuity: concrete reachable runs ---- *)
 Example silent_peer_times_out :
-  let '(s, _, ok) := canonical (mkscen (mkcfg 30 40 10 4 100000) CAccept [mkact false None false false] 1 1 20 0 false false) in
+  let '(s, _, ok) := canonical (mkscen (mkcfg 30 40 10 4 100000 60000) CAccept [mkact false None false false] 1 1 20 [0] false false) in
   ok = true /\ model_calls s = [(OTimeout, 20)] /\ queueLen s = 0%Z /\ invokeNum s = 0%Z /\ resp s = [].
 Proof. vm_compute. repeat split; reflexivity. Qed.
 
 Example late_then_fast_replies :
-  let '(s, _, ok) := canonical (mkscen (mkcfg 30 40 10 4 100000) CAccept [mkact false (Some 30) false false; mkact false (Some 0) false false] 1 2 20 1 false false) in
+  let '(s, _, ok) := canonical (mkscen (mkcfg 30 40 10 4 100000 60000) CAccept [mkact false (Some 30) false false; mkact false (Some 0) false false] 1 2 20 [1] false false) in
   ok = true /\ model_calls s = [(OTimeout, 20); (OReply, 0)] /\ queueLen s = 0%Z /\ invokeNum s = 0%Z /\ resp s = [].
 Proof. vm_compute. repeat split; reflexivity. Qed.
 
 Example one_way_returns_at_once :
-  let '(s, _, ok) := canonical (mkscen (mkcfg 30 40 10 4 100000) CAccept [mkact false None false false] 1 2 20 1 true false) in
+  let '(s, _, ok) := canonical (mkscen (mkcfg 30 40 10 4 100000 60000) CAccept [mkact false None false false] 1 2 20 [1] true false) in
   ok = true /\ model_calls s = [(OSent, 0); (OSent, 0)] /\ queueLen s = 0%Z /\ invokeNum s = 0%Z /\ resp s = [].
 Proof. vm_compute. repeat split; reflexivity. Qed.
 
 Example stalled_three_callers :
-  let '(s, _, ok) := canonical (mkscen (mkcfg 30 40 10 4 100000) CStall [mkact false None false false] 3 1 10 0 false false) in
+  let '(s, _, ok) := canonical (mkscen (mkcfg 30 40 10 4 100000 60000) CStall [mkact false None false false] 3 1 10 [0] false false) in
   ok = true /\ model_calls s = [(OError, 30); (OError, 60); (OError, 90)].
 Proof. vm_compute. repeat split; reflexivity. Qed.
